@@ -37,6 +37,8 @@ func init() {
 			ruleDepthDiscipline(c)
 			ruleBudgetCharged(c)
 			ruleIndexClamps(c)
+			ruleCloseOnce(c)
+			ruleCyclePathCumulative(c)
 			if os.Getenv("PDFVERIF_EXPLORE_ERRFLOW") != "" {
 				runC19(c)
 			}
